@@ -12,7 +12,7 @@ import copy
 import numpy as np
 
 from simkit import codec
-from simkit.seams import Seams, SimClock, SimStream
+from simkit.seams import InjectedCallbackFault, Seams, SimClock, SimStream
 from simkit.world import Discard, Result, Violation, World, mk_rng
 
 from . import common
@@ -151,6 +151,7 @@ class StopWorld(World):
                 sysd["gkind"] = "none"
             sysd["lamda"] = rng.choice([0, 0, sysd["lam"]])
             sysd["defaults"] = rng.random() < 0.6  # default step sizes (MaxEig + global RNG)
+            sysd["x_narrow"] = rng.random() < 0.15
         if kind == "l2c":
             sysd["eps_c"] = float(round(rng.uniform(0.05, 1.5), 3))
         if kind == "mri":
@@ -158,12 +159,16 @@ class StopWorld(World):
             sysd["max_iter"] = rng.choice([0, 1, 2, 3])
             sysd["shape"] = rng.choice([[6, 6], [8, 6]])
             sysd["ncoils"] = rng.randint(2, 3)
-        style = rng.choice(["interleaved", "interleaved", "canonical", "run", "run"])
+        style = rng.choice(["interleaved", "interleaved", "canonical", "run", "run", "run_twice"])
         sched = []
         if style == "canonical":
             sched = ["L"]
         elif style == "run":
             sched = ["RUN"]
+        elif style == "run_twice":
+            # a second run() on the same App: resumes after an aborted first run, or finds the
+            # algorithm done and must change nothing
+            sched = ["RUN", rng.choice(["D", "P"]), "RUN"]
         else:
             for _ in range(rng.randint(0, mi + 2)):
                 for _ in range(rng.randint(0, 2)):
@@ -173,10 +178,15 @@ class StopWorld(World):
             sched += ["U"] * rng.choice([0, 0, 1, 2]) + ["D"]
         plan = {"world": self.name, "seed": seed, "sys": sysd, "schedule": sched, "style": style,
                 "faults": [], "knobs": {"kind": kind}}
+        if kind in ("gm", "pdhg", "cg") and rng.random() < 0.2:
+            # transient failure of a user callback in the middle of an update; the caller
+            # catches it and carries on with the same loop
+            cbs = {"gm": ["gradf", "proxg"], "pdhg": ["A", "AH", "proxg", "proxfc"], "cg": ["A"]}[kind]
+            plan["faults"].append({"seam": "callback", "cb": rng.choice(cbs), "at_call": rng.randint(1, 12)})
         plan["clock"] = {"start": 1.7e9, "incs": [round(rng.uniform(1e-4, 0.3), 4) for _ in range(rng.randint(1, 4))],
                          "jumps": {}}
         if rng.random() < 0.35:
-            fk = rng.choice(["eio", "closed", "epipe", "short", "clock_back", "clock_fwd"])
+            fk = rng.choice(["eio", "closed", "epipe", "short", "clock_back", "clock_fwd", "epipe_once", "epipe_once", "eio_once"])
             if fk.startswith("clock"):
                 plan["faults"].append({"seam": "clock", "at_read": rng.randint(0, 30),
                                        "delta": -3600.0 if fk == "clock_back" else 86400.0})
@@ -207,6 +217,22 @@ class StopWorld(World):
         gk, lam, lo, hi = sysd.get("gkind", "none"), sysd.get("lam", 0.1), sysd.get("lo"), sysd.get("hi")
         MH = M.conj().T.copy()
         np.random.seed(sysd["rng_seed"])
+
+        cbf = getattr(self, "_cb_fault", None)
+        calls = {}
+
+        def flaky(name, fn):
+            if not cbf or cbf["cb"] != name:
+                return fn
+
+            def wrapped(*a):
+                i = calls.get(name, 0)
+                calls[name] = i + 1
+                if i == cbf["at_call"]:
+                    stats["faults_fired.callback_raise_once"] += 1
+                    raise InjectedCallbackFault("callback %s failed (call %d)" % (name, i))
+                return fn(*a)
+            return wrapped
 
         def mk_prox0(shape):
             if gk == "l1":
@@ -263,7 +289,8 @@ class StopWorld(World):
                 if sysd.get("interfere"):
                     common.run_other_solvers(v.shape, v.dtype, stats)
                 return MH @ (M @ v - y)
-            S.alg = A_.GradientMethod(gradf, x, sysd["c"] / L, proxg=mk_prox([n]) if gk != "none" else None,
+            S.alg = A_.GradientMethod(flaky("gradf", gradf), x, sysd["c"] / L,
+                                      proxg=flaky("proxg", mk_prox([n])) if gk != "none" else None,
                                       accelerate=sysd["accelerate"], max_iter=mi, tol=0)
             S.site = "GradientMethod"
             S.solution = lambda: [S.alg.x]
@@ -283,7 +310,7 @@ class StopWorld(World):
                 if sysd.get("interfere"):
                     common.run_other_solvers(v.shape, v.dtype, stats)
                 return Amat @ v
-            S.alg = A_.ConjugateGradient(Acg, b, x, max_iter=mi, tol=0)
+            S.alg = A_.ConjugateGradient(flaky("A", Acg), b, x, max_iter=mi, tol=0)
             S.site = "ConjugateGradient"
             S.solution = lambda: [S.alg.x]
             S.breakdown = lambda: bool(S.alg.not_positive_definite)
@@ -316,7 +343,8 @@ class StopWorld(World):
                 if sysd.get("interfere"):
                     common.run_other_solvers(v.shape, v.dtype, stats)
                 return MH @ v
-            S.alg = A_.PrimalDualHybridGradient(proxfc, pg_, Apd, AHpd, x, u, tau, sigma,
+            S.alg = A_.PrimalDualHybridGradient(flaky("proxfc", proxfc), flaky("proxg", pg_), flaky("A", Apd),
+                                                flaky("AH", AHpd), x, u, tau, sigma,
                                                 theta=sysd.get("theta", 1), gamma_dual=gd, max_iter=mi, tol=0)
             S.site = "PrimalDualHybridGradient"
             S.solution = lambda: [S.alg.x]
@@ -436,7 +464,10 @@ class StopWorld(World):
             if not sysd["defaults"]:
                 Lc = float(np.linalg.norm(M, 2) ** 2 + sysd["lamda"]) if sysd["Aform"] != "identity" else 1.0 + sysd["lamda"]
                 kw.update(alpha=1 / Lc, tau=1 / Lc, sigma=1.0)
-            S.app = sp.app.LinearLeastSquares(Aop, yv, x=np.zeros(shape, dtype=yv.dtype), lamda=sysd["lamda"],
+            xdt = yv.dtype
+            if sysd.get("x_narrow"):
+                xdt = np.complex64 if yv.dtype.kind == "c" else np.float32
+            S.app = sp.app.LinearLeastSquares(Aop, yv, x=np.zeros(shape, dtype=xdt), lamda=sysd["lamda"],
                                               solver=sysd["solver"], max_iter=mi, show_pbar=sysd["show_pbar"],
                                               max_power_iter=5, max_cg_iter=3, **kw)
             S.alg = S.app.alg
@@ -533,7 +564,7 @@ class StopWorld(World):
                 if guard > T.max_iter + 3:
                     break
             tw_out = None
-            if T.app is not None and plan.get("style") == "run":
+            if T.app is not None and plan.get("style") in ("run", "run_twice"):
                 try:
                     o = T.app._output()
                     outs = o if isinstance(o, (tuple, list)) else [o]
@@ -557,6 +588,7 @@ class StopWorld(World):
                 sfaults.append({"at_write": f["at_write"], "kind": f["kind"]})
         clock = SimClock(clock_spec)
         stream = SimStream(sfaults)
+        self._cb_fault = None
         try:
             tw_digests, tw_sols, tw_out = self._twin(plan, stats)
         except Discard:
@@ -567,11 +599,19 @@ class StopWorld(World):
             twin_exc = e
         acts = []
         injected = None
+        cbfaults = [f for f in plan.get("faults", []) if f["seam"] == "callback"]
+        self._cb_fault = cbfaults[0] if cbfaults else None
         with Seams(clock, stream):
             try:
                 S = self.build(sysd, stats)
             except Discard:
                 raise
+            except InjectedCallbackFault:
+                stats["probes.callback_fault_in_constructor"] += 1
+                res.nontrivial = True
+                res.fingerprint = codec.json_digest(["ctor_cbfault", sysd["kind"]])
+                self._cleanup_tqdm()
+                return
             except (OSError, ValueError) as e:
                 if not getattr(e, "injected", False):
                     if tw_digests is None:
@@ -604,13 +644,32 @@ class StopWorld(World):
 
             def check_twin(step):
                 k = st["u"]
+                if st.get("torn"):
+                    return  # an update was abandoned half way: the canonical run is no reference any more
                 if k < len(tw_digests):
                     if generic_state(alg, S.extra) != tw_digests[k]:
                         self._flag(res, "state_differs_from_canonical_run", site, step, {"updates": k})
 
             def update(step, judged=True):
                 it0 = alg.iter
-                common.lib_call(site + ".update", step, alg.update)
+                done_before = bool(alg.done()) if self._cb_fault else None
+                try:
+                    alg.update()
+                except Violation:
+                    raise
+                except Exception as e:
+                    if getattr(e, "injected", False):
+                        # transient callback failure inside the update: the caller carries on
+                        st["torn"] = True
+                        stats["probes.update_abandoned_half_way"] += 1
+                        trace.append({"a": "U", "fault": "callback"})
+                        # an update that did not complete cannot have met a stopping criterion
+                        if done_before is False and alg.iter < mi and bool(alg.done()):
+                            raise Violation("abandoned_update_stops_the_loop", type(alg).__name__, step,
+                                            {"iter": alg.iter, "max_iter": mi, "callback": self._cb_fault["cb"]})
+                        return
+                    raise Violation("library_raised", site + ".update", step,
+                                    {"type": type(e).__name__, "msg": str(e)[:300]})
                 st["u"] += 1
                 stats["steps"] += 1
                 stats["updates"] += 1
@@ -658,6 +717,10 @@ class StopWorld(World):
                 """done() is true before max_iter with tol=0: continue and
                 require the solution to stay put (or a breakdown flag)."""
                 if st["first_done"] is not None:
+                    return
+                if st.get("torn"):
+                    # after an abandoned update the iterate is whatever the interrupted update
+                    # left behind; the fixed-point test would blame the library for the fault
                     return
                 st["first_done"] = alg.iter
                 if alg.iter >= mi:
@@ -723,7 +786,12 @@ class StopWorld(World):
                     loop(step)
                     trace.append({"a": "L", "u": st["u"]})
                 elif a == "RUN":
+                    if "RUN" in acts and not injected:
+                        # Apps are documented as run-once: a second run() is only issued to
+                        # resume a run that was aborted by a propagating fault
+                        continue
                     acts.append("RUN")
+                    injected = None
                     if S.app is None:
                         import sigpy as sp
                         S.app = sp.app.App(alg, show_pbar=sysd["show_pbar"])
@@ -746,6 +814,11 @@ class StopWorld(World):
                     except Exception as e:
                         if getattr(e, "injected", False):
                             injected = type(e).__name__
+                            if isinstance(e, InjectedCallbackFault):
+                                st["torn"] = True
+                                if alg.iter < mi and bool(alg.done()):
+                                    raise Violation("abandoned_update_stops_the_loop", type(alg).__name__, step,
+                                                    {"iter": alg.iter, "max_iter": mi, "in": "run()"})
                             out = None
                         else:
                             rs = site + ".run" + ("[max_iter=0]" if mi == 0 else "")
@@ -758,8 +831,8 @@ class StopWorld(World):
                     st["u"] += counted["n"]
                     stats["steps"] += counted["n"] + 1
                     stats["updates"] += counted["n"]
-                    if counted["n"] > mi:
-                        raise Violation("run_exceeds_max_iter", site + ".run", step, {"updates": counted["n"], "max_iter": mi})
+                    if st["u"] > mi:
+                        raise Violation("run_exceeds_max_iter", site + ".run", step, {"updates": st["u"], "max_iter": mi})
                     if injected:
                         stats["probes.run_aborted_by_propagating_stream_fault"] += 1
                         if alg.iter > mi:
@@ -773,9 +846,19 @@ class StopWorld(World):
                             if not same:
                                 raise Violation("run_output_not_held_solution", site + ".run", step,
                                                 {"type_out": type(out).__name__})
+                        # the returned object is what the algorithm itself holds
+                        ax = getattr(alg, "x", None)
+                        if isinstance(out, np.ndarray) and isinstance(ax, np.ndarray) and out.size == ax.size \
+                                and sysd["kind"] in ("lls", "l2c"):
+                            if codec.bytes_digest(np.asarray(out).ravel().astype(np.complex128)) != \
+                                    codec.bytes_digest(ax.ravel().astype(np.complex128)):
+                                raise Violation("run_output_not_held_solution", site + ".run", step,
+                                                {"why": "returned array differs from the solver's x"})
                         # equals the twin's manual loop
                         kk = min(st["u"], len(tw_sols) - 1)
-                        if st["u"] != len(tw_sols) - 1:
+                        if st.get("torn"):
+                            pass
+                        elif st["u"] != len(tw_sols) - 1:
                             self._flag(res, "run_update_count_differs_from_manual_loop", site + ".run", step,
                                        {"run": st["u"], "manual": len(tw_sols) - 1})
                         elif isinstance(tw_out, list):
@@ -783,10 +866,26 @@ class StopWorld(World):
                             # output step returns
                             outs = out if isinstance(out, (tuple, list)) else [out]
                             outs = [a1 for a1 in outs if isinstance(a1, (np.ndarray, float, int, np.generic))]
-                            if len(outs) != len(tw_out) or any(
-                                    codec.bytes_digest(np.asarray(a1)) != codec.bytes_digest(np.asarray(b1))
-                                    for a1, b1 in zip(outs, tw_out)):
-                                self._flag(res, "run_result_differs_from_manual_loop", site + ".run", step, {})
+                            nrun = acts.count("RUN")
+
+                            def same_(a1, b1):
+                                a1, b1 = np.asarray(a1), np.asarray(b1)
+                                if nrun <= 1:
+                                    return codec.bytes_digest(a1) == codec.bytes_digest(b1)
+                                # a repeated run() re-applies the app's in-place output step
+                                # (EspiritCalib's phase normalisation): equal up to rounding
+                                if a1.shape != b1.shape:
+                                    return False
+                                if np.array_equal(a1, b1, equal_nan=True):
+                                    return True
+                                fin = np.isfinite(b1)
+                                if not np.array_equal(fin, np.isfinite(a1)):
+                                    return False
+                                a1, b1 = np.where(fin, a1, 0), np.where(fin, b1, 0)
+                                sc = float(np.max(np.abs(b1))) if b1.size else 0.0
+                                return bool(np.all(np.abs(a1.astype(np.complex128) - b1.astype(np.complex128)) <= 1e-12 * sc + 1e-300))
+                            if len(outs) != len(tw_out) or any(not same_(a1, b1) for a1, b1 in zip(outs, tw_out)):
+                                self._flag(res, "run_result_differs_from_manual_loop", site + ".run", step, {"run_number": nrun})
                         else:
                             for a1, b1 in zip(S.solution(), tw_sols[kk]):
                                 if codec.bytes_digest(np.asarray(a1)) != codec.bytes_digest(np.asarray(b1)):
@@ -812,7 +911,7 @@ class StopWorld(World):
         res.nontrivial = st["u"] > 0 or len(plan["schedule"]) > 0
         res.fingerprint = codec.json_digest([
             sysd["kind"], sysd.get("solver"), sysd.get("app"), sysd["complex"], sysd["n"], sysd["m"], sysd["max_iter"],
-            sysd.get("gkind"), sysd.get("x0kind"), sysd.get("accelerate"), sysd.get("steps"), sysd.get("gamma"), sysd.get("theta"), sysd.get("pdhg_form"),
+            sysd.get("gkind"), sysd.get("x0kind"), sysd.get("accelerate"), sysd.get("steps"), sysd.get("gamma"), sysd.get("theta"), sysd.get("pdhg_form"), bool(sysd.get("x_narrow")),
             sysd.get("form"), sysd.get("show_pbar"), bool(sysd.get("interfere")), bool(sysd.get("iterprox")), plan.get("style"),
             [(f["seam"], f.get("kind", "jump")) for f in plan.get("faults", [])],
             common.compress_actions(acts)[:40],
